@@ -49,6 +49,7 @@ class GoalSpec:
         self.relax = 0.0
         self.vid = False
         self.uid = None
+        self.state = None  # StateGoal on this state name ("x", "u", "y", or the negated alias "nx" = -x)
         self.__dict__.update(kw)
 
     # what the property statement calls the kind of goal
@@ -132,13 +133,26 @@ def is_empty(spec):
     return not anyfin(spec.tmin) and not anyfin(spec.tmax)
 
 
-def build_goal(spec, times):
-    """a real rtctools Goal from a spec"""
+def build_goal(spec, times, problem=None):
+    """a real rtctools Goal from a spec (a `StateGoal` when `spec.state` is set: function, function
+    key, range and nominal then come from the repo's `StateGoal.__init__`)"""
     import casadi as ca
-    from rtctools.optimization.goal_programming_mixin_base import Goal
+    from rtctools.optimization.goal_programming_mixin_base import Goal, StateGoal
     from rtctools.optimization.timeseries import Timeseries
 
     times = np.asarray(times, dtype=float)
+
+    if spec.state is not None:
+        def tgt_s(t):
+            k, v = t
+            return float(v) if k == "s" else Timeseries(times, np.array(v[0], dtype=float))
+
+        SG = type("SG", (StateGoal,), dict(state=spec.state, target_min=tgt_s(spec.tmin), target_max=tgt_s(spec.tmax),
+                                           priority=spec.prio, weight=spec.w, order=spec.order,
+                                           critical=spec.crit, relaxation=spec.relax))
+        g = SG(problem)
+        g.spec = spec
+        return g
 
     def expr(pr, m, terms):
         e = 0
@@ -185,6 +199,21 @@ def build_goal(spec, times):
         g.violation_timeseries_id = "viol_%s" % spec.uid
     g.function_key = spec.fk
     return g
+
+
+ALIASES = {"x": ("x", 1.0), "y": ("y", 1.0), "u": ("u", 1.0), "nx": ("x", -1.0)}
+
+
+def state_goal_spec(state, inst, **kw):
+    """spec of a StateGoal: terms / key / range / nominal as the documented rule gives them
+    (key = canonical name, prefixed with "-" under a negated alias; range = the state's bounds;
+    nominal = the variable nominal)"""
+    canon, sign = ALIASES[state]
+    lo, hi = RANGES[canon]
+    if sign < 0:
+        lo, hi = -hi, -lo
+    return GoalSpec(state=state, terms=[(canon, sign)], fk=(canon if sign > 0 else "-" + canon), lo=[lo], hi=[hi],
+                    rdef=False, nom=[float(inst["nom"].get(canon, 1.0))], **kw)
 
 
 def term_range(terms):
@@ -252,6 +281,7 @@ def problem_classes():
                             constant_inputs=[c], parameters=[p, q], lookup_tables=[])
             self._res = ca.vertcat(dx + p * x - u - c, y - x - q)
             self._ar = AliasRelation()
+            self._ar.add("x", "-nx")  # nx = -x: a negated alias (StateGoals on it get the key "-x")
             super().__init__(**kw)
 
         @property
@@ -290,8 +320,10 @@ def problem_classes():
             return d
 
         def variable_nominal(self, v):
-            if v in self._nom:
-                return self._nom[v]
+            # nominals are magnitudes: an alias (also a negated one) has the nominal of its canonical name
+            canon = self._ar.canonical_signed(v)[0] if v in ("nx",) else v
+            if canon in self._nom:
+                return self._nom[canon]
             return super().variable_nominal(v)
 
         def bounds(self):
@@ -333,7 +365,7 @@ def problem_classes():
             self.last_transcribe = None
             super().__init__(**kw)
             t = self.times()
-            self._goal_objs = [build_goal(s, t) for s in self._specs]
+            self._goal_objs = [build_goal(s, t, problem=self) for s in self._specs]
 
         def goals(self):
             return [g for g in self._goal_objs if g.spec.point is not None]
